@@ -519,3 +519,9 @@ func (e *Engine) StoredLabels(inst party.ID, r int) string {
 	}
 	return s
 }
+
+// HasStored reports whether the instance already stored a message in that slot.
+func (e *Engine) HasStored(inst party.ID, r int, b bool, from party.ID) bool {
+	_, ok := e.slot(inst, r, b)[from]
+	return ok
+}
